@@ -656,6 +656,23 @@ Theorem C15_eng_send_kind :
 Proof. exact eng_send_kind. Qed.
 Print Assumptions C15_eng_send_kind.
 
+(* never local, never twice — at the engine level: a SendMessage for query q goes to a peer that is not the
+   local peer and that the recorded history of q has not been sent to; after the step the recorded history
+   of q has exactly this one send more. By induction the sends of a query over its whole life are pairwise
+   distinct and never the local peer, for every interleaving with other queries and every polling order. *)
+Theorem C15_eng_send_fresh :
+  forall g evs0 now ch q p mk,
+  let e := fst (xrun g [] evs0) in
+  snd (xstep g e (XNext now ch)) = XSend q p mk ->
+  exists t a b c seeds es s,
+    xget q e = Some (QL t a b c seeds es s) /\ mk = req_of t /\
+    (dist_inj c -> ~ In (c_local c) seeds ->
+     p <> g_local g /\ ~ In p (sends (snd (run c (init c seeds) es)))) /\
+    exists s', xget q (fst (xstep g e (XNext now ch))) = Some (QL t a b c seeds (es ++ [ENext now]) s') /\
+      sends (snd (run c (init c seeds) (es ++ [ENext now]))) = sends (snd (run c (init c seeds) es)) ++ [p].
+Proof. exact eng_send_fresh. Qed.
+Print Assumptions C15_eng_send_fresh.
+
 (* non-vacuity of the engine model: a PUT_VALUE (quorum N(2), k = 2) over three peers — lookup, hand-over
    of the two responders, send phase with one acknowledged and one failed send, QueryFailed; meanwhile a
    PutRecordToPeers query with the same id space is handed over at its first poll *)
